@@ -306,6 +306,9 @@ def setter_cases(family):
             for bad in list(range(-300, 0)) + list(range(101, 401)):
                 yield ('set_operation_mode', (mode, bad, 50), 'ValueError')
                 yield ('set_operation_mode', (mode, 50, bad), 'ValueError')
+            for bad in (-300, -100, -50, -1, 101, 400):
+                yield ('set_operation_mode:kw', (mode, bad, 50), 'ValueError')
+                yield ('set_operation_mode:kw', (mode, 50, bad), 'ValueError')
     for sid in ('', ' ', 'grid_export_limi', 'Grid_export_limit', 'grid_export_limit ', 'eco_mode_5', 'work-mode', 'unknown',
                 'mod', 'time2'):
         yield ('write_setting', (sid, 1), 'ValueError')
@@ -322,8 +325,9 @@ def job_setters(j):
         if i % nparts != part:
             continue
         l0 = len(r.dev.log)
-        res = r.call(getattr(r.inv, name), *args)
+        res = invoke(r, name, args)
         n += 1
+        name = name.replace(':kw', '')
         w = [q for q in r.dev.log[l0:] if q.get('fn') not in (3, 'read')]
         argcls = 'negative' if isinstance(args[0], int) and args[0] < 0 else 'too-large' if isinstance(args[0], int) else 'unknown-id'
         if name == 'set_operation_mode':
@@ -386,6 +390,17 @@ def job_sensor_ids(cfg):
     return n, res
 
 
+def invoke(r, name, args):
+    """Call a public method positionally, or - name ending in ':kw' - with every argument passed by keyword (both are the
+    documented calling conventions; guards must not depend on which one the caller uses)."""
+    import inspect
+    if name.endswith(':kw'):
+        fn = getattr(r.inv, name[:-3])
+        params = [p for p in inspect.signature(fn).parameters]
+        return r.call(fn, **dict(zip(params, args)))
+    return r.call(getattr(r.inv, name), *args)
+
+
 def boundary_cases(family):
     yield ('set_grid_export_limit', (-1,), 'silent')
     if family in ('ET', 'ES'):
@@ -395,6 +410,10 @@ def boundary_cases(family):
             for bad in (-1, -50, -100, 101, 1000):
                 yield ('set_operation_mode', (mode, bad, 50), 'ValueError')
                 yield ('set_operation_mode', (mode, 50, bad), 'ValueError')
+                yield ('set_operation_mode:kw', (mode, bad, 50), 'ValueError')
+                yield ('set_operation_mode:kw', (mode, 50, bad), 'ValueError')
+        yield ('set_ongrid_battery_dod:kw', (-1,), 'silent')
+        yield ('set_grid_export_limit:kw', (-1,), 'silent')
     yield ('write_setting', ('no_such_setting', 1), 'ValueError')
 
 
@@ -423,7 +442,7 @@ def job_setters_after(cfg):
             cases = list(boundary_cases(cfg['family']))
             for (name, args, expect) in (cases[::-1] if rev else cases):
                 l0 = len(r.dev.log)
-                res = r.call(getattr(r.inv, name), *args)
+                res = invoke(r, name, args)
                 n += 1
                 w = [q for q in r.dev.log[l0:] if q.get('fn') not in (3, 'read')]
                 pn = pname + (':' + pargs[0].name if pname == 'set_operation_mode' else '')
@@ -607,7 +626,7 @@ def replay(r):
             except ValueError:
                 args.append(getattr(OM, a.split('.')[-1]) if a.startswith('OperationMode') else a)
         l0 = len(rg.dev.log)
-        res = rg.call(getattr(rg.inv, r['call']), *args)
+        res = invoke(rg, r['call'], args)
         w = [q for q in rg.dev.log[l0:] if q.get('fn') not in (3, 'read')]
         return dict(outcome=str(res)[:100], violations=[str(x) for x in w])
     return dict(violations=vacuity(cfg))
